@@ -1,7 +1,7 @@
 SPECIFICATION MCSpec
 CONSTANTS
-  Nodes = {"a","b","c"}
-  Voters0 = {"a","b","c"}
+  Nodes = {"a", "b", "c"}
+  Voters0 = {"a", "b", "c"}
   Observers = {}
   Nil = "Nil"
   BatchBytes = 50
@@ -9,20 +9,20 @@ CONSTANTS
   WaitLeader = TRUE
   QueueSize = 10
   SpecialCids = {}
-  Raisers = {}
+  Raisers = {"x1"}
   InitConnected = TRUE
   Membership = FALSE
   CompactMin = 1000000
   SnapChunk = 65536
-  Cmds = {}
+  Cmds = {"c1", "x1"}
   CmdSize = 40
-  MaxTerm = 2
-  MaxLog = 4
+  MaxTerm = 1
+  MaxLog = 5
   MaxChan = 2
   MaxFaults = 0
-  Electors = {"a","b","c"}
-  SubmitAt = {}
-  Advs0 = {"z","j"}
+  Electors = {"a"}
+  SubmitAt = {"a"}
+  Advs0 = {"z", "h", "j"}
   SnapSize = 100
   Compactors = {}
   FaultPairs = {{"a","b"},{"a","c"},{"b","c"},{"a","d"},{"b","d"},{"c","d"},{"a","e"},{"b","e"},{"c","e"},{"d","e"}}
